@@ -338,6 +338,16 @@ func (p *Prog) callsCoverBody(fn *ssa.Function, calls []*ssa.Call, hdr *ssa.Basi
 		}
 		return false
 	}
+	singleIterLoops := map[*ssa.BasicBlock]bool{}
+	for _, l := range findMapLoops(fn) {
+		if l.next != nil && body[l.header] && l.header != hdr && p.lenIsOneGuard(l) {
+			for b := range l.body {
+				if callBlk[b] {
+					singleIterLoops[l.header] = true
+				}
+			}
+		}
+	}
 	// body entries: successors of the header inside the loop
 	var starts []*ssa.BasicBlock
 	for _, s := range hdr.Succs {
@@ -356,6 +366,10 @@ func (p *Prog) callsCoverBody(fn *ssa.Function, calls []*ssa.Call, hdr *ssa.Basi
 		work = work[:len(work)-1]
 		if callBlk[b] {
 			continue // paths through the call are fine
+		}
+		// a single-iteration range (entered only under len(m) == 1) whose body makes the call always makes it
+		if l, ok := singleIterLoops[b]; ok && l {
+			continue
 		}
 		allowedIf := false
 		if ifi, ok := b.Instrs[len(b.Instrs)-1].(*ssa.If); ok {
